@@ -333,8 +333,22 @@ def first_match_known_finding(ctx):
     ctx.require(len(loops) == 1, '_get_closest_type: sibling loop not found')
     lp = loops[0]
     # (a) first sibling whose isinstance holds wins: unconditional return inside the if
-    iff = [n for n in lp.body if isinstance(n, ast.If) and isinstance(n.test, ast.Call) and is_name(n.test.func, 'isinstance')]
-    first_match = len(iff) == 1 and any(isinstance(s, ast.Return) for s in iff[0].body) and not iff[0].orelse
+    # (written as ``if isinstance(..): .. return`` or as the guard clause ``if not isinstance(..): continue``:
+    # a return inside the loop that is reachable from the matching edge of the test only)
+    cfg = ctx.cfg(u)
+    ln = cfg.node_of(lp)
+    first_match = False
+    for t in cfg.nodes:
+        if t.kind != 'test' or ln not in t.loop_stack:
+            continue
+        pol = polarity(t.ast, 'isinstance($$o, $$t)')
+        if not pol:
+            continue
+        other = 'false' if pol == 'true' else 'true'
+        for r in [x for x in cfg.nodes if x.kind == 'stmt' and isinstance(x.ast, ast.Return) and ln in x.loop_stack]:
+            if cfg.find_path(t, {r}, avoid={ln}, labels=lambda l: l != 'exc', start_labels=lambda l, y=pol: l == y) is not None \
+                    and cfg.find_path(t, {r}, avoid={ln}, labels=lambda l: l != 'exc', start_labels=lambda l, y=other: l == y) is None:
+                first_match = True
     # (b) siblings are ordered by registration (appended OrderedDict entries)
     fu = ctx.unit('core.TargetRegistry._register_fuzzy_type')
     appended = any(isinstance(n, ast.Assign) and isinstance(n.targets[0], ast.Subscript) and is_name(n.targets[0].slice, fu.params[2])
